@@ -19,7 +19,11 @@ CHECKS = {
          'ceil/floor satisfy the defining inequalities; increment/decrement/percentage are x+1, x-1, 100x; the unit is kept, percentage '
          'yields %, a zero result is bare; an unknown function prints name(arg1,...,argn) with the evaluated arguments in order. '
          'Tied to the code by running model and compiler on the full grid the property names (both tiers) in literal, variable and '
-         'expression form, and on unknown-function calls incl. names that collide with internal attributes.'),
+         'expression form (offsets down to 1e-5, where an expression result is printed in exponent form), and on unknown-function calls incl. '
+         'names that collide with internal attributes and string arguments with blanks before commas. Model/NumE.lean models split_unit with '
+         'its exponent group (repair C17-exponent-arg); C17_exp_*: the split loses and invents nothing, coincides with the exponent-free model '
+         'on every lexeme whose unit does not begin with an exponent (no unit, px, %, s, em, ex, ...), cuts mantissa+exponent+unit after the '
+         'exponent and denotes mantissa x 10^e; tied in-process to utility.split_unit on number-like lexemes.'),
    note=BASE_NOTE + ' Float evaluation in CPython is compared with the exact model to 1e-9 relative, as the property prescribes.'),
  'C06': dict(category='proof',
    technique='Lean 4 theorem model=spec by induction over the guard token list + exhaustive catalogue correspondence',
